@@ -6,9 +6,12 @@ Theorems: coq/props/C16.v.
 Correspondence (harness/cmd/proftree): generated pprof profiles are serialised with
 github.com/google/pprof/profile, pushed through the exported UnmarshalProfileProtoV2 /
 UnmarshalBinaryStreamProfileProtoV2; the emitted ProfileData rows are compared with post_process;
-their projection on one sample type (SQL of PlanMergeTraces, emulated = trusted) is fed in a random
-order (raw or grouped) to the real Tree.MergeTrie / BFS / Total / MaxSelf and compared with
-merge_trie / bfs.  The boolean specification oracles (conservation per node, root sum, merged = sum
+their projection on one sample type is fed in a random order (raw or grouped) to the real
+Tree.MergeTrie / BFS / Total / MaxSelf and compared with merge_trie / bfs; the same rows go through
+the real ProfService.MergeStackTraces and ProfService.RenderDiff over a scripted database (harness
+svc.go); the statement texts the service sends are parsed into coq/model/ProfSql.v merge_stmt,
+rendered back byte for byte and evaluated inside Coq on the stored rows (they must give the rows
+handed to the service); the diff view is compared with coq/model/ProfDiff.v.  The boolean specification oracles (conservation per node, root sum, merged = sum
 of the inputs, level nesting) are evaluated inside Coq on the OBSERVED rows/trees/levels.
 """
 import json
@@ -574,11 +577,15 @@ def run_consts(ck):
 
 def run(ck):
     ck.trusted += [
-        "C16: the SQL of PlanMergeTraces (arrayMap/arrayFirst projection on the selected sample type, ARRAY JOIN, GROUP BY with sum) is emulated "
-        "by the harness and modelled by project_row (trusted; no ClickHouse in the sandbox); the materialized view copies tree/functions unchanged (read)",
+        "C16: ClickHouse's evaluation of the statement of PlanMergeTraces is modelled by eval_merge_stmt (coq/model/ProfSql.v: arrayMap/arrayFirst with its "
+        "default tuple, ARRAY JOIN, GROUP BY, Int64 sum wrap-around, ORDER BY, LIMIT, groupArray) -- no ClickHouse in the sandbox; the statement TEXT is the "
+        "real one (parsed, re-rendered byte for byte, evaluated); the fingerprint selection and label matchers inside it are property C17's; the materialized "
+        "view copies tree/functions unchanged (read)",
         "C16: github.com/google/pprof/profile is trusted to parse what it serialised (it rejects value arrays of the wrong length)",
         "C16: fnId = city.CH64(name) enters as a table computed by the harness with the same library; city.CH64 on the 16-byte node buffer is modelled (city16) and compared",
         "C16: the Tree is modelled for one sample type (the only way reader/service builds it)",
+        "C16: the python statement parser is not trusted (render_stmt parsed = text is proved per template every run); name tokens stand for name strings "
+        "(distinct names of a case have distinct tokens)",
     ]
     run_consts(ck)
     ck.coq_props()
